@@ -4,13 +4,13 @@ usage: seed_recheck.py [id-substring ...]     (expected verdicts come from seede
 import os, sys, json, shutil, subprocess, tempfile, re
 ROOT = os.path.dirname(os.path.dirname(os.path.abspath(__file__)))
 sel = sys.argv[1:]
-bad = 0
-for sid in sorted(os.listdir(os.path.join(ROOT, 'seeded'))):
-    d = os.path.join(ROOT, 'seeded', sid)
-    if not os.path.isdir(d) or (sel and not any(s in sid for s in sel)): continue
+from concurrent.futures import ThreadPoolExecutor
+JOBS = int(os.environ.get('VERIF_SEED_JOBS', '3'))
+def one(sid):
+    d = os.path.join(ROOT, 'seeded', sid); bad = 0
     meta = json.load(open(os.path.join(d, 'meta.json')))
     if meta.get('retired'):
-        print(sid, 'RETIRED:', meta['retired'][:120]); continue
+        return '%s RETIRED: %s' % (sid, meta['retired'][:120]), 0
     exp = json.load(open(os.path.join(d, 'expect.json'))) if os.path.exists(os.path.join(d, 'expect.json')) else {meta['breaks_property']: 1}
     tmp = tempfile.mkdtemp(prefix='seedre_')
     try:
@@ -19,7 +19,7 @@ for sid in sorted(os.listdir(os.path.join(ROOT, 'seeded'))):
             shutil.copy(os.path.join('/repo', f), tmp)
         r = subprocess.run(['patch', '-p1', '-s', '-i', os.path.join(d, 'patch.diff')], cwd=tmp, capture_output=True, text=True)
         if r.returncode != 0:
-            print(sid, 'PATCH DOES NOT APPLY', r.stdout[-200:], r.stderr[-200:]); bad += 1; continue
+            return '%s PATCH DOES NOT APPLY %s %s' % (sid, r.stdout[-200:], r.stderr[-200:]), 1
         out = {}
         # verdicts that need the bounded replay search (an undecided function whose failing input is found and replayed)
         exp_rs = json.load(open(os.path.join(d, 'expect_with_replay_search.json'))) if os.path.exists(os.path.join(d, 'expect_with_replay_search.json')) else {}
@@ -27,11 +27,17 @@ for sid in sorted(os.listdir(os.path.join(ROOT, 'seeded'))):
             env = dict(os.environ, VERIF_REPO=tmp, VERIF_NO_REPLAY_SEARCH='1')
             if prop.endswith('+search'): env.pop('VERIF_NO_REPLAY_SEARCH')
             p = subprocess.run([os.path.join(ROOT, 'check'), prop.split('+')[0], '--no-evidence'], capture_output=True, text=True, env=env)
-            first = (p.stdout.strip().splitlines() or [''])[0]
-            out[prop] = (p.returncode, re.sub(r'replay=\S+', 'replay=…', first)[:150])
+            lines = p.stdout.strip().splitlines()
+            first = ([l for l in lines if l.startswith('VIOLATION')] or [l for l in lines if l.startswith(('OK', 'UNDECIDED'))] or lines or [''])[0]
+            out[prop] = (p.returncode, re.sub(r'replay=\S+', 'replay=…', first)[:170])
             if p.returncode != want: bad += 1
-        print(sid, {k: v for k, v in out.items()}, 'expected', exp)
+        return '%s %s expected %s' % (sid, out, dict(exp, **{k + '+search': v for k, v in exp_rs.items()})), bad
     finally:
         shutil.rmtree(tmp, ignore_errors=True)
+sids = [sid for sid in sorted(os.listdir(os.path.join(ROOT, 'seeded'))) if os.path.isdir(os.path.join(ROOT, 'seeded', sid)) and not (sel and not any(s in sid for s in sel))]
+bad = 0
+with ThreadPoolExecutor(max_workers=JOBS) as tp:
+    for line, b in tp.map(one, sids):
+        print(line, flush=True); bad += b
 print('not as expected:', bad)
 sys.exit(1 if bad else 0)
